@@ -39,19 +39,45 @@ func Shrink(c Case, bad func(*Case) bool) Case {
 	changed := true
 	for changed && budget > 0 {
 		changed = false
-		// drop requests of the history
+		// drop requests of the history (a change in front of a dropped request moves to the next one that has none)
 		for i := 0; i < len(c.Reqs) && len(c.Reqs) > 1; i++ {
 			d := cloneCase(c)
+			ch := d.Reqs[i].Change
 			d.Reqs = append(d.Reqs[:i:i], d.Reqs[i+1:]...)
+			if ch != nil && i < len(d.Reqs) && d.Reqs[i].Change == nil {
+				d.Reqs[i].Change = ch
+			}
 			if try(d) {
 				c, changed = d, true
 				i--
+			}
+		}
+		// drop changes of the route table
+		for i := range c.Reqs {
+			if c.Reqs[i].Change != nil {
+				d := cloneCase(c)
+				d.Reqs[i].Change = nil
+				if try(d) {
+					c, changed = d, true
+				}
 			}
 		}
 		// drop services
 		for i := 0; i < len(c.Table.Services) && len(c.Table.Services) > 1; i++ {
 			d := cloneCase(c)
 			d.Table.Services = append(d.Table.Services[:i:i], d.Table.Services[i+1:]...)
+			for k := range d.Reqs { // changes name their service by index
+				if ch := d.Reqs[k].Change; ch != nil {
+					switch {
+					case ch.Svc == i:
+						d.Reqs[k].Change = nil
+					case ch.Svc > i:
+						n := *ch
+						n.Svc--
+						d.Reqs[k].Change = &n
+					}
+				}
+			}
 			if try(d) {
 				c, changed = d, true
 				i--
